@@ -5,10 +5,30 @@ from vlib import core, oracle, tracev
 LEVEL = "model_checking"
 
 
+def apalache_ind(ctx):
+    import shutil, subprocess, tempfile
+    if not shutil.which("apalache-mc"):
+        return "apalache-mc not installed: skipped"
+    d = tempfile.mkdtemp(prefix="apa_", dir=ctx.work)
+    shutil.copy(os.path.join(core.VERIF, "spec", "ShareAckInd.tla"), d)
+    res = []
+    for args in (["--init=Init", "--inv=IndInv", "--length=0"], ["--init=IndInit", "--inv=IndInv", "--length=1"], ["--init=IndInit", "--inv=Safety", "--length=0"]):
+        p = subprocess.run(["timeout", "300", "apalache-mc", "check"] + args + ["ShareAckInd.tla"], cwd=d, stdout=subprocess.PIPE, stderr=subprocess.STDOUT, text=True)
+        ok = "EXITCODE: OK" in p.stdout and "NoError" in p.stdout
+        res.append(ok)
+        if not ok and ("violat" in p.stdout.lower() or "EXITCODE: ERROR (12)" in p.stdout):
+            raise core.Infra("ShareAckInd.tla: inductive invariant obligation %s fails:\n%s" % (args, p.stdout[-1500:]))
+    shutil.rmtree(d, ignore_errors=True)
+    return "3 obligations discharged" if all(res) else "inconclusive (tool error or timeout): %s" % res
+
+
 def run(ctx):
     ctx.design("ShareAck", "ShareAck.cfg", workers=4, timeout=600, tag="shareack_design")
     m = ctx.tlc("ShareAck", "ShareAck_mut.cfg", workers=4, timeout=600, tag="shareack_mutant", allow_fail=True)
     ctx.notes["design_mutant_terminal_after_renew_not_enqueued_rejected"] = bool(m.violated) or "violated" in m.out
+    # unbounded safety of the per-record model: Apalache discharges the inductive invariant of ShareAckInd.tla
+    # (Init => IndInv, IndInv /\ Next => IndInv', IndInv => AtMostOneFinal /\ SentIsDecided) without a bound on renews or queue length
+    ctx.notes["apalache_inductive_invariant"] = apalache_ind(ctx)
     # (a) the range builder against every enumerated mix of entries and gaps
     cases, stats, _ = oracle.run_o1(ctx, "AckRanges", ["AckRanges_q.cfg" if ctx.tier == "quick" else "AckRanges.cfg"], "ack_cases.ndjson", "./c12/", gorun="TestOracle", key=lambda v: v["key"])
     builder = stats[0]
